@@ -186,6 +186,13 @@ def run_case(case):
                 rexp = "exn missing %s" % hx(bytes(exc.missing_node_hash))
             res.emit("hx.rawop %s %s %s" % (hx(state[1]), hx(key), rv if rv != "" else "-"), rexp)
             res.tags.add("raw-level-missing-tied" if exc is not None else "raw-level-tied")
+        if tg == "0" and kind == "trav":
+            # raw level of the read path on the incomplete database (annotate / _traverse_from over rlp-decoded nodes)
+            res.emit("hx.travd %s %s" % (hx(state[1]), nibstr(probe[1])), out)
+            res.tags.add("raw-level-read-tied")
+        if tg == "0" and kind == "get":
+            res.emit("hx.getat %s %s" % (hx(state[1]), hx(key)), out)
+            res.tags.add("raw-level-read-tied")
         if kind == "exists" and exc is None:
             # the model answers exists() through get(): compare the value's emptiness
             res.emit(line, "v " + hx(target.get(key)))
